@@ -495,7 +495,7 @@ struct timespec* sentTime) {
 
   case bs_recvCmd:
     if ((m_command.size() == 0 && !isMaster(recvSymbol))
-    || (m_command.size() == 1 && !isValidAddress(recvSymbol))) {
+    || (m_command.size() == 1 && (!isValidAddress(recvSymbol) || recvSymbol == m_command[0]))) {
       return setState(bs_skip, RESULT_ERR_INVALID_ADDR);
     }
     m_command.push_back(recvSymbol);
